@@ -10,6 +10,7 @@
   index-space box, with or without `all_touched` (monitored on the library on every run).
 -/
 import SoundeventModel.Axis
+import SoundeventModel.Geometry
 namespace SE.Raster
 open SE SE.Axis
 
@@ -26,7 +27,7 @@ structure IBox where
   iy0 : Nat
   ix1 : Nat
   iy1 : Nat
-  val : Int
+  val : Rat        -- the value to burn (a binary64 / dtype value: a rational)
   deriving DecidableEq, Repr
 
 /-- rasterio's rule for an integer-cornered box: the cell `(i, j)` is burnt iff its centre
@@ -36,7 +37,7 @@ def covered (b : IBox) (i j : Nat) : Bool :=
           (b.iy0 : Rat) ≤ (j : Rat) + 1 / 2 ∧ (j : Rat) + 1 / 2 ≤ (b.iy1 : Rat))
 
 /-- the raster as the result presents it: `grid[i][j]`, `i` the time bin, `j` the frequency bin -/
-abbrev Grid := List (List Int)
+abbrev Grid := List (List Rat)
 
 /-- burn one box: covered cells are overwritten -/
 def burn (g : Grid) (b : IBox) : Grid :=
@@ -44,7 +45,7 @@ def burn (g : Grid) (b : IBox) : Grid :=
 
 /-- `features.rasterize(shapes, fill=fill)` for boxes: shapes are burnt in order into a raster
     initialised with `fill` -/
-def rasterBoxes (nx ny : Nat) (boxes : List IBox) (fill : Int) : Grid :=
+def rasterBoxes (nx ny : Nat) (boxes : List IBox) (fill : Rat) : Grid :=
   boxes.foldl burn (List.replicate nx (List.replicate ny fill))
 
 /-- the template array: only its dimension order and its coordinates matter -/
@@ -60,15 +61,15 @@ inductive RGeom
   | interval (s e : Rat)      -- TimeInterval: the box from frequency 0 to MAX_FREQUENCY
   deriving Repr
 
-def toIBox (t : Template) (g : RGeom) (v : Int) : IBox :=
+def toIBox (t : Template) (g : RGeom) (v : Rat) : IBox :=
   match g with
   | .box s l e h => ⟨binOf t.time s, binOf t.freq l, binOf t.time e, binOf t.freq h, v⟩
   | .interval s e => ⟨binOf t.time s, binOf t.freq 0, binOf t.time e, binOf t.freq MAXF, v⟩
 
 /-- `values`: one value for all geometries, or a list / tuple -/
 inductive Values
-  | one (v : Int)
-  | many (vs : List Int)
+  | one (v : Rat)
+  | many (vs : List Rat)
   deriving Repr
 
 structure Raster where
@@ -78,7 +79,7 @@ structure Raster where
   deriving DecidableEq, Repr
 
 /-- `if not isinstance(values, (list, tuple)): values = [values] * len(geometries)` -/
-def expandValues (values : Values) (n : Nat) : List Int :=
+def expandValues (values : Values) (n : Nat) : List Rat :=
   match values with
   | .one v => List.replicate n v
   | .many vs => vs
@@ -88,13 +89,127 @@ def expandValues (values : Values) (n : Nat) : List Int :=
     dimension order (repaired code, fixes/C20-1: the pinned tree passed `array.shape`, so that a
     time-first non-square template failed with "conflicting sizes"); the result is the transposed
     raster labelled `(time, frequency)` with the template's coordinates. -/
-def rasterize (t : Template) (geoms : List RGeom) (values : Values) (fill : Int) (_allTouched : Bool) :
+def rasterize (t : Template) (geoms : List RGeom) (values : Values) (fill : Rat) (_allTouched : Bool) :
     Except AErr Raster :=
   let vs := expandValues values geoms.length
   if vs.length ≠ geoms.length then .error .invalid
   else
     .ok { time := t.time, freq := t.freq,
           grid := rasterBoxes t.time.length t.freq.length (List.zipWith (toIBox t) geoms vs) fill }
+
+
+/-! ## all nine geometry types: the index-space image, the rasteriser as a parameter
+
+  `rasterize` hands `shapely.transform(geometry_to_shapely(geom), transform_coordinates)` to
+  `rasterio.features.rasterize`: every vertex of the shapely form of the geometry is replaced by
+  its pair of bin indices.  That *image* is the library's own code and is modelled here for every
+  geometry type.  Which cells rasterio / GDAL burns for a shape is not modelled: it is the
+  parameter `Burner`; the contracts the theorems need of it (box rule, point rule, centre rule,
+  all-touched superset) are hypotheses, monitored on the library on every run, and the
+  correspondence runs instantiate it with rasterio's answers for the model's images. -/
+
+/-- a vertex in index space: (time bin, frequency bin) -/
+abbrev ICell := Nat × Nat
+
+/-- what is handed to rasterio, by shapely geometry type -/
+inductive IShape
+  | point (p : ICell)
+  | multiPoint (ps : List ICell)
+  | line (l : List ICell)
+  | multiLine (ls : List (List ICell))
+  | poly (rings : List (List ICell))                 -- shell, then holes
+  | multiPoly (polys : List (List (List ICell)))
+  deriving DecidableEq, Repr
+
+/-- `transform_coordinates`: a (time, frequency) vertex becomes its pair of bins (clamped lookup) -/
+def binPt (t : Template) (p : Pt) : ICell := (binOf t.time p.1, binOf t.freq p.2)
+
+/-- shapely closes a ring whose last vertex is not its first -/
+def closeRing (r : List Pt) : List Pt :=
+  match r.head?, r.getLast? with
+  | some a, some b => if a = b then r else r ++ [a]
+  | _, _ => r
+
+/-- `shapely.geometry.box(s, l, e, h)`: the ring in shapely's vertex order -/
+def boxPts (s l e h : Rat) : List Pt := [(e, l), (e, h), (s, h), (s, l), (e, l)]
+
+/-- `shapely.transform(geometry_to_shapely(geom), transform_coordinates)` -/
+def image (t : Template) : Geom → IShape
+  | .timeStamp x => .line [binPt t (x, 0), binPt t (x, MAXF)]
+  | .timeInterval s e => .poly [(boxPts s 0 e MAXF).map (binPt t)]
+  | .point x f => .point (binPt t (x, f))
+  | .lineString pts => .line (pts.map (binPt t))
+  | .polygon rings => .poly (rings.map (fun r => (closeRing r).map (binPt t)))
+  | .boundingBox s l e h => .poly [(boxPts s l e h).map (binPt t)]
+  | .multiPoint pts => .multiPoint (pts.map (binPt t))
+  | .multiLineString ls => .multiLine (ls.map (fun l => l.map (binPt t)))
+  | .multiPolygon ps => .multiPoly (ps.map (fun rings => rings.map (fun r => (closeRing r).map (binPt t))))
+
+/-- the cells one shape burns: `mask i j` -/
+abbrev Mask := Nat → Nat → Bool
+
+/-- rasterio / GDAL: shape, `all_touched`, raster size `nx ny` ↦ the cells burnt -/
+abbrev Burner := IShape → Bool → Nat → Nat → Mask
+
+/-- burn one mask with a value: marked cells are overwritten -/
+def burnMask (m : Mask) (v : Rat) (g : Grid) : Grid :=
+  g.mapIdx (fun i row => row.mapIdx (fun j old => if m i j then v else old))
+
+/-- shapes are burnt in order into a raster initialised with `fill` -/
+def rasterMasks (nx ny : Nat) (shapes : List (Mask × Rat)) (fill : Rat) : Grid :=
+  shapes.foldl (fun g p => burnMask p.1 p.2 g) (List.replicate nx (List.replicate ny fill))
+
+/-- `rasterize` given the cells every geometry's image burns (`n` = number of geometries) -/
+def rasterizeM (t : Template) (masks : List Mask) (n : Nat) (values : Values) (fill : Rat) :
+    Except AErr Raster :=
+  let vs := expandValues values n
+  if vs.length ≠ n then .error .invalid
+  else
+    .ok { time := t.time, freq := t.freq,
+          grid := rasterMasks t.time.length t.freq.length (List.zip masks vs) fill }
+
+/-- `rasterize(geometries, array, values, fill, dtype, all_touched=…)` for every geometry type,
+    with the rasteriser `B` as a parameter -/
+def rasterizeG (B : Burner) (t : Template) (geoms : List Geom) (values : Values) (fill : Rat)
+    (allTouched : Bool) : Except AErr Raster :=
+  rasterizeM t (geoms.map (fun g => B (image t g) allTouched t.time.length t.freq.length)) geoms.length
+    values fill
+
+/-- the box-like geometries of the first model as geometries -/
+def RGeom.toGeom : RGeom → Geom
+  | .box s l e h => .boundingBox s l e h
+  | .interval s e => .timeInterval s e
+
+/-- the ring shapely's `box` makes of an index-space box -/
+def shapelyBoxRing (b : IBox) : List ICell :=
+  [(b.ix1, b.iy0), (b.ix1, b.iy1), (b.ix0, b.iy1), (b.ix0, b.iy0), (b.ix1, b.iy0)]
+
+/-- defaults of `rasterize`'s signature (re-extracted from the signature on every run, Tie 1) -/
+def defaultValue : Rat := 1
+def defaultFill : Rat := 0
+def defaultAllTouched : Bool := false
+/-- `xdim`, `ydim`: geometry times are looked up on the "time" axis, frequencies on "frequency" -/
+def defaultXDim : String := "time"
+def defaultYDim : String := "frequency"
+
+/-- `rasterize(geometries, array)` with `values`, `fill`, `all_touched` left out as given -/
+def rasterizeD (B : Burner) (t : Template) (geoms : List Geom) (values : Option Values) (fill : Option Rat)
+    (allTouched : Option Bool) : Except AErr Raster :=
+  rasterizeG B t geoms (values.getD (.one defaultValue)) (fill.getD defaultFill)
+    (allTouched.getD defaultAllTouched)
+
+/-- the straight-line part of `get_coord_index(arr, dim, value, raise_error=False)` over the
+    numbers it reads: range `lo hi` (`get_dim_range`), axis size `n`, pandas' right slice bound
+    `sb` (tied to the source for all inputs by symbolic trace, Tie 1b) -/
+def clampIndexR (lo hi v n sb : Rat) : Rat :=
+  if v < lo ∨ v > hi then (if v < lo then 0 else n) else sb - 1
+
+/-- the same with `raise_error=True`: `none` = `KeyError` -/
+def clampIndexRaise (lo hi v sb : Rat) : Option Rat :=
+  if v < lo ∨ v > hi then none else some (sb - 1)
+
+/-- a mask given as a table (what the correspondence runs observed of rasterio) -/
+def maskOfTable (tbl : List (List Bool)) : Mask := fun i j => (tbl.getD i []).getD j false
 
 /-! ## executable statements used by the monitor for general polygons -/
 
@@ -141,5 +256,9 @@ def centreRuleViolations (nx ny : Nat) (rings : List (List IPt)) (burnt : List (
     if onBoundary rings c then none
     else if insideRings rings c == ((burnt.getD i []).getD j false) then none
     else some (i, j)))
+
+/-- index-space rings as rational points (for the point-in-polygon statements) -/
+def ratRings (rings : List (List ICell)) : List (List IPt) :=
+  rings.map (fun r => r.map (fun p => ((p.1 : Rat), (p.2 : Rat))))
 
 end SE.Raster
